@@ -353,6 +353,27 @@ func (w *World) latency(kind string) time.Duration {
 // ---------------------------------------------------------------------------
 // channel wrappers (R4)
 
+// RecvSlot declares the typed slots of a select receive case (rewrite R4).
+func RecvSlot[T any](ch <-chan T) (v T, ok bool, got bool) { return }
+
+// SelectOrder returns the order in which a rewritten select polls its cases:
+// a permutation drawn from the tape (identity outside a simulation).
+func SelectOrder(n int) []int {
+	ord := make([]int, n)
+	for i := range ord {
+		ord[i] = i
+	}
+	g := cur()
+	if g == nil || n < 2 {
+		return ord
+	}
+	for i := n - 1; i > 0; i-- {
+		j := g.W.Tape.Draw(SSched, i+1)
+		ord[i], ord[j] = ord[j], ord[i]
+	}
+	return ord
+}
+
 // Recv replaces `<-ch`.
 func Recv[T any](ch <-chan T) T {
 	g := cur()
